@@ -294,7 +294,7 @@ func VerifC09_q_reservedVsRangeRequest() {
 	}
 }
 
-// BOUND: topologies {0,1,3}; up to 2 pods bound; the configmap changes to a variant that drops addresses; the reload (updateConfigMap) runs with one API call failing cleanly at a symbolic position 1..4 (e.g. the listing of the stored objects); the daemon's next poll runs updateConfigMap again without faults: afterwards the configuration in force is the new one (de-configured addresses are gone from memory and store, still configured allocations are kept, nothing de-configured is handed out)
+// BOUND: topologies {0,1,3}; up to 2 pods bound; the configmap changes to a variant that drops addresses; the reload (updateConfigMap) runs with one API call failing cleanly at a symbolic position 1..4 (e.g. the listing of the stored objects, or the deletion of a de-configured object); right after it the tables must be those of the former or of the new configuration as a whole; the daemon's next poll runs updateConfigMap again without faults: afterwards the configuration in force is the new one (de-configured addresses are gone from memory and store, still configured allocations are kept, nothing de-configured is handed out)
 func VerifC09_q_failedReloadRetried() {
 	topo := []int{0, 1, 3}[nondetChoice(3)]
 	w := vpNewWorld(topo, false)
@@ -316,6 +316,19 @@ func VerifC09_q_failedReloadRetried() {
 	w.faultAt = 0
 	verifAssume(err1 != nil || w.faulted)
 	verifReach("reload-faulted")
+	// whatever failed, the tables are those of one configuration: the former one (the reload changed nothing) or the
+	// new one -- not the allocated table of one and the free table of the other
+	isOld, isNew := true, true
+	for _, ip := range w.ips {
+		inA, inU := floatingip.VerifTables(w.innerIPAM(), ip)
+		if !(inA || inU) {
+			isOld = false
+		}
+		if (inA || inU) != vpHas(kept, ip) {
+			isNew = false
+		}
+	}
+	verifAssert("C09/failed-reload-atomic", isOld || isNew, "after a reload that hit a fault the tables hold neither the former nor the new configuration")
 	// the next poll
 	_, err2 := w.plugin.updateConfigMap()
 	floatingip.VerifRotate(w.innerIPAM())
@@ -336,10 +349,10 @@ func VerifC09_q_failedReloadRetried() {
 	}
 }
 
-// BOUND: topologies {0,1}; two statefulset pods bound (default or reserving policy); the first one is deleted and its IP is released -- by handling its delete event, or by the administrator's release API -- while a reload through updateConfigMap (to variant 0 re-encoded / 1 / 2) runs atomically inside any one window right before or after an API-server call of the release (symbolic window 0..8); afterwards one more pod is scheduled
+// BOUND: topologies {0,1} (thorough: {0,1,3}); two statefulset pods bound (default policy); the first one is deleted and its IP is released -- by handling its delete event, or by the administrator's release API -- while a reload through updateConfigMap (to variant 0 re-encoded / 1 / 2) runs atomically inside any one window right before or after an API-server call of the release (symbolic window 0..8, thorough 0..14); afterwards one more pod is scheduled
 // ASSUME: C09: interference granularity = API-server calls: the reload runs to completion inside one window of the release; interleavings in which it would have to wait for the table lock the release holds are discarded
 func VerifC09_q_reloadWhileReleasing() {
-	topo := nondetChoice(2)
+	topo := []int{0, 1, 3}[nondetChoice(2+verifTier())]
 	w := vpNewWorld(topo, false)
 	text0, _ := vpConfig(topo, 0)
 	if err := w.reload(text0); err != nil {
@@ -365,7 +378,7 @@ func VerifC09_q_reloadWhileReleasing() {
 			reloaded = true
 		}
 	}
-	w.windowAt = nondetInt(0, 8)
+	w.windowAt = nondetInt(0, 8+6*verifTier())
 	w.deletePod(name)
 	w.syncListers()
 	if nondetBool() {
